@@ -1,4 +1,4 @@
-\* sensitivity (plausible bug): error path forgets streams.remove; the heartbeat path disconnects again
+\* sensitivity (plausible bug): the error path forgets streams.remove; the heartbeat path disconnects again
 CONSTANTS
   c1 = c1
   c2 = c2
@@ -18,5 +18,6 @@ CONSTANTS
   Dev = {"DoubleDisconnect"}
 INIT Init
 NEXT Next
+VIEW MCView
 INVARIANTS DispatchInvs
 CHECK_DEADLOCK FALSE
